@@ -102,7 +102,7 @@ extern int mpt_history_get(const MPT_STRUCT(history) *hist, MPT_STRUCT(property)
 	else {
 		MPT_STRUCT(property) pc = MPT_PROPERTY_INIT;
 		if (!(pc.name = name)) {
-			pc.desc = (char *) (id - 1);
+			pc.desc = (char *) (pos - id);
 		}
 		else if (!strcasecmp(name, "history") || !strcasecmp(name, "histfile")) {
 			pc.name = "file";
